@@ -16,4 +16,5 @@ pub fn dump(dir: &str) {
         s.push_str(&format!("other {other} = {}\n", id.rules().is_some()));
     }
     std::fs::write(format!("{dir}/room_rules.txt"), s).unwrap();
+    crate::dump_all(dir);
 }
